@@ -568,6 +568,9 @@ def impl(case):
         return rewrap_checks(_random.Random(case['seed']), {})
     if case['kind'] == 'f20':
         return f20_probe(case['key'])
+    if case['kind'] == 'sweep':
+        import random as _random
+        return deep_edit_sweep(_random.Random(case['seed']), case['obj'], {})
     if case['kind'] == 'pure':
         return impl_pure(case)
     if case['kind'] == 'mapkind':
@@ -682,7 +685,7 @@ LEVEL_NOTE = ('Proved for the models only; the models are tied to /repo by testi
               'for tree-shaped objects: a copy() of an internally shared object is outside the modelled domain, decided by tree_shaped), '
               'MutableMapping mixins, the harness. TESTED ONLY (not modelled in Coq): copy() isolation and the in-place / not-in-place '
               'contracts of BioSeq, BioBasket, FeatureList, Feature, Location -- 800/30000 random histories of 168 public operations per '
-              'run, a 2777-case matrix of match/matchall/find_orfs/copy-chains over all reading-frame selections, 33 re-wrap checks, a '
+              'run (subjects also read from GFF -- feature and location meta._gff -- and from SJSON), 120/2000 exhaustive nested-edit sweeps (every reachable object of one side edited, both directions, depth up to 11), a 2777-case matrix of match/matchall/find_orfs/copy-chains over all reading-frame selections, 33 re-wrap checks, a '
               '351-case matrix of mapping kinds x entry paths. Not proved: refinement for reference assignment / paths through list '
               'indices; the heap analogue of the "Attr never holds a plain dict" invariant. '
               'Domain excludes reserved keys R = dir(Meta) + __dunder__ names: open finding F20 (keys such as items/update/copy shadow '
@@ -1100,7 +1103,7 @@ BUILDERS = {'seq': r_seq, 'basket': r_basket, 'fts': r_fts, 'meta': r_meta}
 def run_history(rng, kind, nops, cov, want_trace=False):
     """returns None or a violation description; fully determined by rng"""
     ctx = Ctx(rng)
-    x = BUILDERS[kind](rng)
+    x = (BUILDERS.get(kind) or BUILDERS_EXTRA[kind])(rng)
     sx0 = dsnap(x)
     trace = ['y = x.copy()  # x: %s' % kind]
     try:
@@ -1161,6 +1164,13 @@ def run_history(rng, kind, nops, cov, want_trace=False):
                 # lazily created containers by getters are not changes of the public state
                 return ('operation %s changed a %s object that is not reachable from its receiver' % (label, type(o).__name__)), trace
         snaps[side] = dsnap(roots[side])
+        if ok and mode == 'pure' and name == 'copy':
+            common = set(reach(recv)) & set(reach(res))
+            if common:
+                o = reach(recv)[sorted(common)[0]]
+                return 'operation %s: the copy shares a mutable %s object with its operand: %r' % (label, type(o).__name__, o), trace
+            if dsnap(res, light=True) != dsnap(recv, light=True):
+                return 'operation %s: the copy is not structurally equal to its operand' % label, trace
         if ok and mode == 'pure':
             for r in (res if isinstance(res, (list, tuple)) and kind_of(res) is None else [res]):
                 if kind_of(r) is not None and len(pools[side]) < 6:
@@ -1498,6 +1508,157 @@ def mapkind_matrix():
     return cases
 
 
+# ---- copy() subjects that come from files, and an exhaustive nested-edit sweep ------------------------------------------
+
+def r_gff_text(rng, ids=('s1', 's2')):
+    lines = ['##gff-version 3']
+    n = 0
+    for sid in ids:
+        for _ in range(rng.randint(1, 3)):
+            n += 1
+            a = rng.randint(1, 20)
+            ftype = rng.choice(['gene', 'CDS', 'exon'])
+            strand = rng.choice('+-.')
+            attrs = 'ID=f%d;Name=n%d;note=%s' % (n, n, rng.choice(['a', 'a,b', 'x y']))
+            lines.append('\t'.join([sid, 'src', ftype, str(a), str(a + rng.randint(2, 9)), rng.choice(['.', '0.5']), strand,
+                                    rng.choice(['.', '0', '1']), attrs]))
+            if rng.random() < 0.6:          # a second line with the same ID: one feature with two locations, per-location _gff
+                b = a + 12
+                lines.append('\t'.join([sid, 'src', ftype, str(b), str(b + rng.randint(2, 9)), '.', strand, rng.choice(['0', '1', '2']),
+                                        'ID=f%d;Name=n%d;tag=%s' % (n, n, rng.choice(['t', 'u,v']))]))
+    return '\n'.join(lines) + '\n'
+
+
+def r_gff_fts(rng):
+    import io
+    from sugar import read_fts
+    return read_fts(io.StringIO(r_gff_text(rng)), 'gff')
+
+
+def r_gff_basket(rng):
+    """sequences with features read from GFF attached (feature meta._gff and location meta._gff are nested Attr objects)"""
+    from sugar import BioSeq, BioBasket
+    b = BioBasket([BioSeq(r_data(rng, 34, 40), id='s1', meta=r_metalit(rng, 2)), BioSeq(r_data(rng, 34, 40), id='s2')],
+                  meta=r_metalit(rng, 1))
+    b.fts = r_gff_fts(rng)
+    return b
+
+
+def r_sjson_basket(rng):
+    """objects as the SJSON reader builds them; SJSON drops private keys such as _gff, so public nested feature / location metadata
+    is added before writing"""
+    from sugar import BioBasket
+    b = r_gff_basket(rng)
+    for q in b:
+        for ft in q.fts:
+            ft.meta.extra = {'k': [1, {'z': 2}], 'm': {'n': {'o': 1}}}
+            for loc in ft.locs:
+                loc.meta.info = {'p': {'q': [1, 2]}, 'tags': ['a', {'t': 1}]}
+    return BioBasket.fromfmtstr(b.tofmtstr('sjson'))
+
+
+def r_attr(rng):
+    from sugar.core.meta import Attr
+    a = Attr(r_metalit(rng, 3))
+    a.lst = [1, {'z': [2, {'y': 3}]}]
+    a.deep = {'d1': {'d2': {'d3': [1]}}}
+    return a
+
+
+BUILDERS_EXTRA = {'gff_fts': r_gff_fts, 'gff_basket': r_gff_basket, 'gff_seq': lambda rng: r_gff_basket(rng)[0],
+                  'sjson_basket': r_sjson_basket, 'sjson_seq': lambda rng: r_sjson_basket(rng)[0], 'attr': r_attr}
+
+
+def depths(o):
+    """id -> depth of every non-scalar object reachable from o (breadth first)"""
+    out, frontier = {id(o): (0, o)}, [o]
+    d = 0
+    while frontier:
+        d += 1
+        nxt = []
+        for x in frontier:
+            for c in children(x):
+                if not _is_scalar(c) and id(c) not in out:
+                    out[id(c)] = (d, c)
+                    nxt.append(c)
+        frontier = nxt
+    return out
+
+
+def edit_object(o, tag):
+    """a small in-place edit of one object through its public interface; returns False if the type has none"""
+    from sugar import BioSeq
+    from sugar.core.fts import Feature, Location
+    from sugar.core.meta import Attr
+    if isinstance(o, Attr):
+        o['zz_' + tag] = {'e': [1]}
+        for k in list(o)[:1]:
+            if not k.startswith('zz_') and k not in ('fts', 'id'):
+                del o[k]
+    elif isinstance(o, dict):
+        o['zz_' + tag] = 1
+    elif isinstance(o, list):
+        if o:
+            o.pop(0)
+        else:
+            o.append('zz_' + tag)
+    elif isinstance(o, Location):
+        o.start -= 1
+        o.strand = '-' if str(o.strand) != '-' else '+'
+        o.defect = int(o.defect) ^ 1
+    elif isinstance(o, Feature):
+        o.type = 'zz_' + tag
+    elif isinstance(o, BioSeq):
+        o.data = o.data[::-1] + 'A'
+        o.type = 'aa'
+    elif hasattr(o, 'data') and isinstance(o.data, list):
+        o.data = o.data[1:]
+    else:
+        return False
+    return True
+
+
+def deep_edit_sweep(rng, kind, cov):
+    """y = x.copy(); then EVERY mutable object reachable from one side (at every depth) is edited in turn, and the other side's deep
+    snapshot must stay what it was -- both directions, each on a fresh pair"""
+    build = BUILDERS.get(kind) or BUILDERS_EXTRA[kind]
+    seed = rng.getrandbits(32)
+    import random as _random
+    for direction in ('copy', 'original'):
+        x = build(_random.Random(seed))
+        sx = dsnap(x)
+        try:
+            y = x.copy()
+        except Exception as e:
+            return '%s.copy() raised %s: %s' % (kind, type(e).__name__, e)
+        if dsnap(y) != sx or dsnap(x) != sx:
+            return '%s.copy() is not structurally equal to the original' % kind
+        common = set(reach(x)) & set(reach(y))
+        if common:
+            o = reach(x)[sorted(common)[0]]
+            return 'after %s.copy() a mutable %s object is reachable from both sides: %r' % (kind, type(o).__name__, o)
+        edited, other = (y, x) if direction == 'copy' else (x, y)
+        before = dsnap(other)
+        objs = sorted(depths(edited).values(), key=lambda t: -t[0])      # deepest first
+        for d, o in objs:
+            try:
+                done = edit_object(o, 'd%d' % d)
+            except Exception:
+                done = False
+            if done:
+                cov['sweep_edits'] = cov.get('sweep_edits', 0) + 1
+                if d >= 2:
+                    cov['sweep_edits_depth_ge2'] = cov.get('sweep_edits_depth_ge2', 0) + 1
+                cov['sweep_max_depth'] = max(cov.get('sweep_max_depth', 0), d)
+                if dsnap(other) != before:
+                    return ('%s.copy(): editing a %s object at depth %d of the %s changed the %s' %
+                            (kind, type(o).__name__, d, 'copy' if direction == 'copy' else 'original',
+                             'original' if direction == 'copy' else 'copy'))
+    return None
+
+
+SWEEP_KINDS = ['seq', 'basket', 'fts', 'meta', 'attr', 'gff_fts', 'gff_basket', 'gff_seq', 'sjson_basket', 'sjson_seq']
+
 F20_WITNESS = {'kind': 'f20', 'reserved_key': True, 'key': 'items'}
 
 
@@ -1523,11 +1684,11 @@ def f20_probe(key='items'):
 def extra_checks(rng, tier, cov):
     nh = 30000 if tier == 'thorough' else 800
     import random as _random
-    kinds = ['seq', 'basket', 'fts', 'meta']
+    kinds = ['seq', 'basket', 'fts', 'meta', 'gff_basket', 'seq', 'basket', 'gff_fts', 'attr', 'sjson_basket']
     cov['histories'] = 0
     for i in range(nh):
         seed = rng.getrandbits(48)
-        kind = kinds[i % 4]
+        kind = kinds[i % len(kinds)]
         nops = 1 + (seed % 12)
         r = _random.Random(seed)
         why, trace = run_history(r, kind, nops, cov)
@@ -1542,6 +1703,15 @@ def extra_checks(rng, tier, cov):
             yield {'case': {'kind': 'rewrap', 'seed': seed}, 'impl': why, 'spec': why, 'noshrink': True, 'model': None, 'wf': True, 'evaluated': False}
             return
     import framework as F
+    for i in range(2000 if tier == 'thorough' else 120):
+        seed = rng.getrandbits(48)
+        kind = SWEEP_KINDS[i % len(SWEEP_KINDS)]
+        why = deep_edit_sweep(_random.Random(seed), kind, cov)
+        cov['sweeps'] = cov.get('sweeps', 0) + 1
+        if why:
+            yield {'case': {'kind': 'sweep', 'obj': kind, 'seed': seed}, 'impl': why, 'spec': why,
+                   'noshrink': True, 'model': None, 'wf': True, 'evaluated': False}
+            return
     why = locmeta_nested_check()
     if why:
         yield {'case': {'kind': 'history', 'obj': 'fts', 'seed': 0, 'nops': 0, 'locmeta_nested': True}, 'impl': why, 'spec': why,
